@@ -2,6 +2,7 @@ SPECIFICATION GSpec
 CONSTANTS
   Cases = {}
   W64 = 0
+  SplitFee = TRUE
   W32 = 0
   BW = 1000
   Bases = {0, 1, 13}
